@@ -690,8 +690,20 @@ def replay(path):
     return 1 if (out.oracle_violations or out.mismatches) else 0
 
 
-SCOPE = "partial: see Properties/C06.v"
-EXPLANATION = ""
+SCOPE = ("full for the modelled scope: all 16 theorems of Properties/C06.v are proved for every history of the eleven modelled operations (axiom-free): "
+         "module balance = sum of live locks; accumulation(>= d) = sum over live locks for every denomination and d >= 0; reference entries exact and every "
+         "iterator = definitional filter (store.go composites = concatenation of their iterators, never failing); conservation; owner-only / not-early "
+         "(balance growth per operation bounded by the account's own matured locks, force-unlock guarded by owner + allow-list); lawful evolution of every "
+         "lock record (end time set once to block time + duration); split preserves sum/owner/duration with a fresh id. Not modelled: synthetic locks "
+         "(C11), multi-coin locks, CL share denominations, the sum-tree behind the accumulation store (C16)")
+EXPLANATION = ("Theorems over the Gallina model C06/Model.v (lockup keeper + msg server + EndBlocker over a small bank, reference indexes as the set of "
+               "(structured key, id) store entries, accumulation store as a sorted map) by invariants over operation histories with monotone block times. "
+               "The model is tied to /repo by running the real full app through the lockup MsgServer / keeper / EndBlocker (atomic execution) on generated "
+               "histories and comparing after every operation: result code, last lock id, module and owner balances, every lock record, "
+               "GetPeriodLocksAccumulation for every universe duration +-1 ns on every denomination, and (on a per-operation focus sweep plus periodic full sweeps) "
+               "all 18 iterators of iterator.go and 21 query functions of store.go/lock.go over the argument universe - as 50-bit digests of the observation vectors. "
+               "An independent Python oracle evaluates the property's predicates (balances, accumulation, every query = filter of the lock table, conservation, "
+               "release only when matured and only to the owner, end time = begin time + duration, fresh ids, split sums) on every implementation observation.")
 TRUSTED = [
     "hand-written model coq/theories/C06/Model.v, tied to x/lockup by the correspondence run (harness/c06drv against /repo's working tree)",
     "harness/c06drv (Go), props/c06.py (generator, flattening, oracle), Coq vm_compute evaluation of generated case files; 50-bit digests of the per-operation observation vectors",
@@ -704,8 +716,14 @@ ASSUMPTIONS = [
     "message handlers run atomically (DESIGN 1.5); block times are monotone and later than Go's zero time",
 ]
 TECHNIQUE = "Coq proof by induction over operation histories on a Gallina model of the lockup keeper and msg server; model tied to x/lockup by differential correspondence (vm_compute) + oracle"
-LEVEL_TEXT = ""
-LEVEL_NOTE = ""
+LEVEL_TEXT = ("Machine-checked theorems (Coq 8.16.1, axiom-free) for all finite histories of lock / add-to-lock / extend / begin-unlock (full, partial = split) / "
+              "begin-unlock-all / unlock / withdraw-matured / end-block / set-reward-receiver / force-unlock / block-time advance by any senders with any arguments: "
+              "module balance, accumulation totals, exact reference indexes and iterators, conservation, owner-only and not-early release, lawful lock evolution, "
+              "split preservation. The model is hand-written and checked against the real x/lockup code (full app) on generated histories on every run; "
+              "an independent oracle evaluates the property's predicates on the implementation's observations.")
+LEVEL_NOTE = ("Trusted: Coq kernel (vm_compute, no native_compute), no axioms; hand-written model C06/Model.v; Go driver harness/c06drv and python glue; "
+              "SDK bank / KV store / sum-tree (abstracted), hooks of other modules, baseapp atomicity. Scope: single-coin locks, no synthetic locks, "
+              "denominations that are not prefixes of one another.")
 
 
 def selftest(seed=1, n=6):
